@@ -36,6 +36,10 @@ class Gen(object):
     def maybe(self, p):
         return self.rng.random() < p
 
+    def or_zero(self, x, p=0.25):
+        """An optional attribute set to exactly zero is a value, not 'unset' (0.0 is falsy in Python)."""
+        return 0.0 if self.rng.random() < p else x
+
     def call(self, desc):
         self.log.append(desc)
 
@@ -105,7 +109,7 @@ class Gen(object):
                 j.emitter_coefficient = self.val(1e-5, 1e-3, 4, log=True)
                 self.call('%s.emitter_coefficient = %r' % (name, j.emitter_coefficient))
             if self.maybe(0.3):
-                j.initial_quality = self.val(1e-4, 1e-3, 3)
+                j.initial_quality = self.or_zero(self.val(1e-4, 1e-3, 3))
                 self.call('%s.initial_quality = %r' % (name, j.initial_quality))
             for _ in range(r.choice([0, 0, 0, 1, 2])):
                 a = (self.val(1e-4, 0.02, 4, log=True), r.choice(pats) if pats and self.maybe(0.7) else None, r.choice([None, 'extra', 'fire']))
@@ -153,10 +157,10 @@ class Gen(object):
                 self.call('%s.mixing_model = %s fraction %s' % (name, t.mixing_model, t.mixing_fraction))
                 self.features.add('mixing')
             if self.maybe(0.3):
-                t.bulk_coeff = -self.val(1e-6, 1e-5, 3)
+                t.bulk_coeff = self.or_zero(-self.val(1e-6, 1e-5, 3))
                 self.call('%s.bulk_coeff = %r' % (name, t.bulk_coeff))
             if self.maybe(0.3):
-                t.initial_quality = self.val(1e-4, 1e-3, 3)
+                t.initial_quality = self.or_zero(self.val(1e-4, 1e-3, 3))
             if self.maybe(0.3):
                 t.tag = 'tanktag'
             tanks.append(name)
@@ -200,9 +204,9 @@ class Gen(object):
             self.call('add_pipe(%r, %r, %r, **%s)' % (name, a, b, kw))
             p = wn.get_link(name)
             if self.maybe(0.25):
-                p.bulk_coeff = -self.val(1e-6, 1e-5, 3)
+                p.bulk_coeff = self.or_zero(-self.val(1e-6, 1e-5, 3))
             if self.maybe(0.25):
-                p.wall_coeff = -self.val(1e-6, 1e-5, 3)
+                p.wall_coeff = self.or_zero(-self.val(1e-6, 1e-5, 3))
             if self.maybe(0.3):
                 p.tag = 'ptag'
             if self.maybe(0.3):
